@@ -75,7 +75,8 @@ def parse_tx(raw, limit=10**6):
         v, c = r.varint()
         if not c:
             t.canonical = False
-        if v > limit:
+        if v > len(raw):
+            # (no count or length can exceed the size of the whole serialisation)
             raise Malformed("count too large")
         return v
     t.ins = []
